@@ -180,14 +180,23 @@ def tail(path, n=30):
 
 _re_states = re.compile(r"^(\d+) states generated, (\d+) distinct states found")
 _re_depth = re.compile(r"The depth of the complete state graph search is (\d+)")
-_re_tuple = re.compile(r'^<<"(VIOLATION|DRIFT|INFO|COVER)"(.*)>>$')
+_re_tuple_start = re.compile(r'^<<\s*"(VIOLATION|DRIFT|INFO|COVER)"')
 
 
 def parse_tlc(out):
     res = dict(generated=0, distinct=0, depth=0, errors=[], tuples=[])
+    pending = None   # TLC pretty-prints long tuples over several lines
     with open(out, errors="replace") as f:
         for line in f:
             line = line.rstrip("\n")
+            if pending is not None:
+                pending += " " + line.strip()
+                if pending.endswith(">>"):
+                    res["tuples"].append(parse_tla_tuple(pending))
+                    pending = None
+                elif len(pending) > 100000:
+                    pending = None
+                continue
             m = _re_states.match(line)
             if m:
                 res["generated"] = int(m.group(1))
@@ -200,15 +209,18 @@ def parse_tlc(out):
             if line.startswith("Error:") or "Exception" in line and "TLC" in line:
                 res["errors"].append(line)
                 continue
-            m = _re_tuple.match(line)
-            if m:
-                res["tuples"].append(parse_tla_tuple(line))
+            if _re_tuple_start.match(line):
+                if line.rstrip().endswith(">>"):
+                    res["tuples"].append(parse_tla_tuple(line))
+                else:
+                    pending = line.strip()
     return res
 
 
 def parse_tla_tuple(line):
     """<<"KIND", "x", 12, TRUE>>  ->  ["KIND","x",12,True] (flat tuples only)."""
-    body = line.strip()[2:-2]
+    body = line.strip()
+    body = body[2:-2].strip()
     out = []
     for tok in re.findall(r'"(?:[^"\\]|\\.)*"|[^,\s][^,]*', body):
         tok = tok.strip()
